@@ -180,6 +180,10 @@ pub struct KnownFinding {
 }
 
 pub fn load_known_findings() -> Vec<KnownFinding> {
+    // (debugging aid: judge everything as if nothing were listed)
+    if std::env::var("GE_NO_KNOWN").is_ok() {
+        return vec![];
+    }
     let p = verif_dir().join("known_findings.jsonl");
     let Ok(s) = std::fs::read_to_string(&p) else { return vec![] };
     let mut out = vec![];
